@@ -71,6 +71,20 @@ pub fn scenario(prop: &str) -> Scenario {
             s.min_machines = 1;
             s.max_machines = 3;
         }
+        "C09" => {
+            s.mp.signals = 70;
+            s.mp.ends = 8;
+            s.mp.trans_density = 55;
+            s.mp.counters = 25;
+            s.mp.limits = 25;
+            s.mp.max_states = 3;
+            s.mp.prob = ProbMode::Dyadic;
+            s.hp.min_events = 1;
+            s.hp.max_events = 4;
+            s.hp.max_calls = 6;
+            s.min_machines = 1;
+            s.max_machines = 4;
+        }
         "C04" => {
             s.mp.ends = 35;
             s.mp.signals = 25;
@@ -127,6 +141,7 @@ pub fn monitor(prop: &str, c: &FwCase, run: &FwRun) -> Option<String> {
         "C04" => mon_c04(c, run),
         "C02" => mon_c02(c, run),
         "C03" => mon_c03(c, run),
+        "C09" => mon_c09(c, run),
         _ => None,
     }
 }
@@ -162,6 +177,7 @@ pub fn nontrivial(prop: &str, c: &FwCase, run: &FwRun) -> bool {
             run.calls.iter().any(|c| c.actions.iter().any(|a| matches!(a, TriggerAction::SendPadding { .. })))
                 && c.machines.iter().any(|m| m.max_padding_frac > 0.0 || m.allowed_padding_packets > 0) 
         }
+        "C09" => run.calls.iter().any(|c| c.log.iter().any(|e| e.0 == maybenot::verif::LOG_SIGSET)),
         "C03" => run
             .calls
             .iter()
@@ -424,6 +440,62 @@ fn mon_c03(c: &FwCase, run: &FwRun) -> Option<String> {
                 }
             }
         }
+    }
+    None
+}
+
+/// C09: delivery counts per machine per call from the internal log
+fn mon_c09(c: &FwCase, run: &FwRun) -> Option<String> {
+    use maybenot::verif::{LOG_SIGDELIVER, LOG_SIGSET};
+    let n = c.machines.len();
+    let mut prev_ended: Vec<bool> = run
+        .new_snap
+        .as_ref()
+        .map(|s| s.machines.iter().map(|m| m.current_state == STATE_END).collect())
+        .unwrap_or_default();
+    for (j, rec) in run.calls.iter().enumerate() {
+        let mut signallers: Vec<usize> = vec![];
+        let mut deliv = vec![0u32; n];
+        for (tag, a, _) in &rec.log {
+            if *tag == LOG_SIGSET && !signallers.contains(&(*a as usize)) {
+                signallers.push(*a as usize);
+            }
+            if *tag == LOG_SIGDELIVER && (*a as usize) < n {
+                deliv[*a as usize] += 1;
+            }
+        }
+        let ended_now: Vec<bool> = rec.snap.machines.iter().map(|m| m.current_state == STATE_END).collect();
+        for i in 0..n {
+            if deliv[i] > 1 {
+                return Some(format!("call {}: machine {} received {} Signals in one call", j, i, deliv[i]));
+            }
+            let live = !prev_ended[i] && !ended_now[i];
+            match signallers.len() {
+                0 => {
+                    if deliv[i] != 0 {
+                        return Some(format!("call {}: machine {} received a Signal although no machine signalled in this call", j, i));
+                    }
+                }
+                1 => {
+                    let a = signallers[0];
+                    if i == a && deliv[i] != 0 {
+                        return Some(format!("call {}: the lone signaller {} received its own Signal", j, a));
+                    }
+                    if i != a && live && deliv[i] != 1 {
+                        return Some(format!("call {}: lone signaller {}, live machine {} received {} Signals (expected 1)", j, a, i, deliv[i]));
+                    }
+                }
+                _ => {
+                    if live && deliv[i] != 1 {
+                        return Some(format!("call {}: machines {:?} signalled, live machine {} received {} Signals (expected 1)", j, signallers, i, deliv[i]));
+                    }
+                }
+            }
+        }
+        if rec.snap.signal_pending != 0 {
+            return Some(format!("call {}: a pending signal survives the call", j));
+        }
+        prev_ended = ended_now;
     }
     None
 }
